@@ -597,10 +597,16 @@ def optAtom {α : Type} (f : String → Option α) : SExp → Option (Option α)
   | .atom a => (f a).map some
   | _ => none
 
+def unhexString? (a : String) : Option String :=
+  if a.startsWith "x" then do
+    let bs ← parseHex? (a.drop 1).toString
+    String.fromUTF8? (ByteArray.mk bs.toArray)
+  else none
+
 def rxOfSexpS : Nat → SExp → Option Sch.RxT
   | 0, _ => none
   | _ + 1, .list [.atom "atom", .atom a] => some (.atom a)
-  | _ + 1, .list [.atom "lit", .atom a] => some (.lit a)
+  | _ + 1, .list [.atom "lit", .atom a] => (unhexString? a).map .lit
   | f + 1, .list [.atom "and", a, b] => do pure (.and2 (← rxOfSexpS f a) (← rxOfSexpS f b))
   | _ + 1, _ => none
 
@@ -633,7 +639,7 @@ def schOfSexp : Nat → SExp → Option Sch.Sch
     | it => do pure (.array lo hi pre false (← schOfSexp f it))
   | f + 1, .list [.atom "obj", .list props, ap, .list req, .atom lo, hi] => do
     let props ← schKLOfSexp f props
-    let req ← req.mapM (fun r => match r with | .atom a => some a | _ => none)
+    let req ← req.mapM (fun r => match r with | .atom a => unhexString? a | _ => none)
     let lo ← lo.toNat?
     let hi ← optAtom (fun s => s.toNat?) hi
     match ap with
@@ -649,7 +655,7 @@ def schLOfSexp : Nat → List SExp → Option Sch.SchL
 def schKLOfSexp : Nat → List SExp → Option Sch.SchKL
   | 0, _ => none
   | _ + 1, [] => some .nil
-  | f + 1, .list [.atom k, x] :: xs => do pure (.cons k (← schOfSexp f x) (← schKLOfSexp f xs))
+  | f + 1, .list [.atom k, x] :: xs => do pure (.cons (← unhexString? k) (← schOfSexp f x) (← schKLOfSexp f xs))
   | _ + 1, _ => none
 end
 
@@ -666,6 +672,14 @@ def handleSch (args : List String) : String :=
         | none => "err"
       | _, _ => "bad-op"
     | _, _ => "bad-op"
+  | "sat" :: rest =>
+    -- meaning of an IR node (as dumped by the code) on an instance: `sch sat (pair <IR> <instance>)` -> 1 / 0
+    match parseSexp (" ".intercalate rest) with
+    | some (.list [.atom "pair", a, v]) =>
+      match schOfSexp 200 a, jsonOfSexp v with
+      | some a, some v => showBool (Sch.sat (fun _ _ => true) Sch.isMultDec a v)
+      | _, _ => "bad-op"
+    | _ => "bad-op"
   | _ => "bad-op"
 
 def parseOptInt? (s : String) : Option (Option Int) :=
